@@ -10,9 +10,10 @@ def generate():
     checks, na = [], []
     na_file = os.path.join(VERIF, "lib", "vf", "props", "not_applicable.json")
     na_reasons = json.load(open(na_file)) if os.path.exists(na_file) else {}
+    ready = json.load(open(os.path.join(VERIF, "lib", "vf", "props", "ready.json")))
     for pid in ids:
         p = os.path.join(VERIF, "lib", "vf", "props", pid.lower() + ".py")
-        if pid in na_reasons or not os.path.exists(p):
+        if pid in na_reasons or pid not in ready or not os.path.exists(p):
             na.append({"property_id": pid, "reason": na_reasons.get(pid, "check not built yet (see DESIGN.md section 5 for the plan)")})
             continue
         m = importlib.import_module("vf.props." + pid.lower())
